@@ -136,6 +136,8 @@ def gen_plan(seed, tier="quick"):
         "reader_sort_false": r.random() < 0.2,
         # joblib's thread backend (with joblib.parallel_backend("threading")): the chunk workers share one process
         "backend": "threading" if r.random() < 0.12 else "loky",
+        "env": ({k: v for k, v in (("SLURM_CPUS_PER_TASK", r.choice(["1", "2"])), ("LOKY_MAX_CPU_COUNT", r.choice(["1", "2"])),
+                                   ("OMP_NUM_THREADS", "1"), ("JOBLIB_MULTIPROCESSING", "0")) if r.random() < 0.6} if r.random() < 0.12 else None),
         "symlink": r.random() < 0.1,        # the recording's data file is a symbolic link into a store, its .meta beside the link     # reader_kwargs={"sort": False}: traces and geometry in the file's own channel order
         "interrupted_first": r.choice([None, None, None, {"kind": r.choice(["kill", "torn", "io_error", "interrupt", "short"]), "rseed": r.randrange(1 << 30)}]),
     }
@@ -206,6 +208,8 @@ def _extract(plan, src, outdir, chunk, n_jobs, schedule, scratch):
         sx = spikeglx.Reader(src, **kw.get("reader_kwargs", {}))
         kw["h"] = {k: np.array(v) for k, v in sx.geometry.items()}
         sx.close()
+    saved_env = {k: os.environ.get(k) for k in (plan.get("env") or {})}
+    os.environ.update(plan.get("env") or {})
     try:
         sdt = np.dtype(plan.get("spike_dtype", "int64"))
         cl = sp[:, 1] if (sdt.kind == "i" or sp[:, 1].min(initial=0) >= 0) else sp[:, 1] - sp[:, 1].min()
@@ -216,6 +220,12 @@ def _extract(plan, src, outdir, chunk, n_jobs, schedule, scratch):
     except Exception as e:
         import traceback
         err = (e, traceback.format_exc())
+    finally:
+        for k_, v_ in saved_env.items():
+            if v_ is None:
+                os.environ.pop(k_, None)
+            else:
+                os.environ[k_] = v_
     return {"err": err, "trace": [list(t) for t in SCHED.trace], "tasks": list(SCHED.task_log), "mm": list(SCHED.mm_writes),
             "io_counts": dict(SCHED.io_counts), "io_sites": {k: list(v) for k, v in SCHED.io_sites.items()}}
 
@@ -660,7 +670,7 @@ def _check_files(plan, tag, out, V, neigh, sp, valid, ns, nap, od, res, chunk, n
 
 
 def shrink_candidates(plan):
-    for key, val in (("symlink", False), ("backend", "loky"), ("reader_sort_false", False), ("form", "bin"), ("delay", None), ("io_mode", False), ("preprocess", "none"), ("order", None), ("victim", None), ("p_switch", 0.0), ("prelude", None), ("interrupted_first", None)):
+    for key, val in (("env", None), ("symlink", False), ("backend", "loky"), ("reader_sort_false", False), ("form", "bin"), ("delay", None), ("io_mode", False), ("preprocess", "none"), ("order", None), ("victim", None), ("p_switch", 0.0), ("prelude", None), ("interrupted_first", None)):
         if plan.get(key) != val:
             c = dict(plan)
             c[key] = val
